@@ -8,7 +8,10 @@ import (
 	"fmt"
 	"os"
 	"reflect"
+	"runtime"
 	"strconv"
+	"strings"
+	"sync/atomic"
 	"time"
 )
 
@@ -27,13 +30,13 @@ type input struct {
 }
 
 var (
-	in       input
-	loaded   bool
-	seenSym  = map[string]int{}
-	seenCh   = map[string]int{}
-	Violated []string
+	in           input
+	loaded       bool
+	seenSym      = map[string]int{}
+	seenCh       = map[string]int{}
+	Violated     []string
 	AssumeFailed bool
-	Asserted = map[string]int{}
+	Asserted     = map[string]int{}
 )
 
 const zeroTimeNs int64 = -(1 << 62)
@@ -295,6 +298,8 @@ func IteInt(c bool, a, b int) int {
 	}
 	return b
 }
+// Permute: all map iteration orders (symbolic mode only; natively Go randomises the order itself).
+func Permute(on bool) {}
 func Decide(c bool) bool  { return c }
 func Concrete(x int) int  { return x }
 func Injective(uf string) {}
@@ -335,28 +340,68 @@ func Run(h func()) (panicked interface{}) {
 	return nil
 }
 
-// ---- logical threads (native twin of the engine scheduler): strict hand-off between two goroutines ----
+// ---- logical threads (native twin of the engine scheduler) ----
+// Two goroutines, one token. A goroutine may pass a Yield point only while it holds the token. A goroutine that gets
+// stuck in a real sync.Mutex held by the parked one cannot yield: the parked one notices (no progress of the holder for
+// stealAfter) and takes the token, exactly like the engine's "blocked" hand-over.
 
 type nthread struct {
-	resume chan struct{}
-	done   bool
+	gid  int64
+	done int32
 }
 
 var (
-	nthreads [2]*nthread
-	ncur     int
-	nactive  bool
-	npre     int
-	nbound   = 2
-	nabort   interface{}
+	nthreads  [2]*nthread
+	ncur      int32
+	nactive   bool
+	npre      int
+	nbound    = 2
+	nabort    atomic.Value
+	nprogress int64
 )
 
-func nswitch(to int) {
-	from := ncur
-	ncur = to
-	nthreads[to].resume <- struct{}{}
-	<-nthreads[from].resume
-	ncur = from
+const stealAfter = 400 * time.Millisecond
+
+func curGID() int64 {
+	var buf [64]byte
+	n := runtime.Stack(buf[:], false)
+	// "goroutine 123 ["
+	s := string(buf[:n])
+	s = strings.TrimPrefix(s, "goroutine ")
+	if i := strings.IndexByte(s, ' '); i > 0 {
+		id, _ := strconv.ParseInt(s[:i], 10, 64)
+		return id
+	}
+	return -1
+}
+
+func myTid() int {
+	g := curGID()
+	for i, t := range nthreads {
+		if t != nil && t.gid == g {
+			return i
+		}
+	}
+	return -1
+}
+
+// acquire parks the calling thread until it holds the token (stealing it from a holder that makes no progress).
+func acquire(me int) {
+	last := atomic.LoadInt64(&nprogress)
+	lastChange := time.Now()
+	for atomic.LoadInt32(&ncur) != int32(me) {
+		time.Sleep(200 * time.Microsecond)
+		if p := atomic.LoadInt64(&nprogress); p != last {
+			last, lastChange = p, time.Now()
+		} else if time.Since(lastChange) > stealAfter {
+			other := 1 - me
+			if atomic.LoadInt32(&nthreads[other].done) == 0 {
+				atomic.StoreInt32(&ncur, int32(me)) // the holder is stuck in a mutex we hold
+			}
+			lastChange = time.Now()
+		}
+	}
+	atomic.AddInt64(&nprogress, 1)
 }
 
 // Yield: a possible context switch (the recorded schedule decides).
@@ -364,18 +409,19 @@ func Yield() {
 	if !nactive {
 		return
 	}
-	other := 1 - ncur
-	if nthreads[other].done || npre >= nbound {
+	me := myTid()
+	if me < 0 {
+		return
+	}
+	acquire(me)
+	other := 1 - me
+	if atomic.LoadInt32(&nthreads[other].done) != 0 || npre >= nbound {
 		return
 	}
 	if Choose("sched", 2) == 1 {
 		npre++
-		nswitch(other)
-		if nabort != nil {
-			a := nabort
-			nabort = nil
-			panic(a)
-		}
+		atomic.StoreInt32(&ncur, int32(other))
+		acquire(me)
 	}
 }
 
@@ -384,36 +430,37 @@ func Par(f, g func()) {
 	if b, ok := in.Params["preemptions"]; ok {
 		nbound, _ = strconv.Atoi(b)
 	}
-	nthreads[0] = &nthread{resume: make(chan struct{})}
-	nthreads[1] = &nthread{resume: make(chan struct{})}
-	ncur, nactive, npre = 0, true, 0
-	t1 := nthreads[1]
+	nthreads[0] = &nthread{gid: curGID()}
+	nthreads[1] = &nthread{}
+	atomic.StoreInt32(&ncur, 0)
+	nactive, npre = true, 0
+	started := make(chan struct{})
+	finished := make(chan struct{})
 	go func() {
-		<-t1.resume
+		nthreads[1].gid = curGID()
+		close(started)
 		defer func() {
 			if r := recover(); r != nil {
-				nabort = r
+				nabort.Store(fmt.Sprint(r))
 			}
-			t1.done = true
-			ncur = 0
-			nthreads[0].resume <- struct{}{}
+			atomic.StoreInt32(&nthreads[1].done, 1)
+			atomic.StoreInt32(&ncur, 0)
+			close(finished)
 		}()
+		acquire(1)
 		g()
 	}()
+	<-started
 	if Choose("sched", 2) == 1 {
-		nswitch(1)
+		atomic.StoreInt32(&ncur, 1)
+		acquire(0)
 	}
 	f()
-	nthreads[0].done = true
-	if !t1.done {
-		ncur = 1
-		t1.resume <- struct{}{}
-		<-nthreads[0].resume
-	}
+	atomic.StoreInt32(&nthreads[0].done, 1)
+	atomic.StoreInt32(&ncur, 1)
+	<-finished
 	nactive = false
-	if nabort != nil {
-		a := nabort
-		nabort = nil
+	if a := nabort.Load(); a != nil {
 		panic(a)
 	}
 }
